@@ -80,6 +80,7 @@ pub fn c01(rep: &mut Report, cfg: &Cfg) {
     }
     lock.finish();
     drain_strays(rep, check, &mut lock, &judge);
+    super::progwalk::run(rep, cfg, "C01", &judge, &[Group::Mov], 300, 60_000);
     rep.notes.push("C01: every MOV form of the table x register fields x data pool/random x all 256 CCR x operand addresses in RAM/DRAM/vector area (first/last bytes of each), full state compare + periodic five-region memory compare. Cells: (form, src field, dst field), (form, N/Z outcome), (form, operand region, code region), (form, initial CCR).".into());
 }
 
@@ -176,6 +177,7 @@ pub fn c04(rep: &mut Report, cfg: &Cfg) {
     }
     lock.finish();
     drain_strays(rep, check, &mut lock, &judge);
+    super::progwalk::run(rep, cfg, "C04", &judge, &[Group::Bit], 300, 60_000);
     rep.notes.push("C04: every bit-manipulation form x (256 operand values x 8 bit numbers x C) exhaustively, operands in byte registers, @ERn (RAM/DRAM/vector area) and @aa:8 (RAM tail and plain I/O bytes; port and timer registers excluded), all register numbers, bit-number register values 0-255. Cells: (form, bit, C-in, bit value, operand location).".into());
 }
 
@@ -197,7 +199,7 @@ fn run_bit(rep: &mut Report, check: &str, lock: &mut Lock, c: &Case, judge: &Jud
 // ---------------------------------------------------------------------------------------------
 // C08 — which bytes are accessed, and the +/- register update
 
-fn c08_judge() -> Judge {
+pub fn c08_judge() -> Judge {
     // C08 judges which bytes were accessed (memory diffs, loaded value through tagged memory ->
     // destination register) and the address-register update; flags belong to C01-C04.
     Judge { outcome: true, regs: true, ccr: false, pc: true, mem: true, cost: false, panics: false, only: None }
@@ -264,6 +266,7 @@ pub fn c08(rep: &mut Report, cfg: &Cfg) {
     // (byte / word view, ADDS, INC), access again with the same mode, register and displacement.
     // Every step is judged in lock step from the real machine's state, so an effective address
     // derived from stale state shows at the second access.
+    super::progwalk::run(rep, cfg, "C08", &c08_judge(), &[Group::Mov, Group::Bit, Group::Stc], 300, 60_000);
     let chains = cfg.share(cfg.n(4_000, 120_000));
     for _ in 0..chains {
         let seed = rng.next();
@@ -367,6 +370,7 @@ pub fn c20(rep: &mut Report, cfg: &Cfg) {
     }
     lock.finish();
     drain_strays(rep, check, &mut lock, &judge);
+    super::progwalk::run(rep, cfg, "C20", &judge, &[Group::Mov, Group::Arith, Group::Logic, Group::Bit, Group::Stc], 300, 60_000);
     rep.notes.push("C20: every implemented form x code in RAM/DRAM x operand/stack/vector in RAM, DRAM, vector area x 8 bus-controller settings (4 hand-made with pairwise distinct costs + 4 seeded random); compares the state count returned by the step with cycle-table x cost-function. Cells: (form, code area, data area, stack area, setting), (form, total).".into());
 }
 
